@@ -294,6 +294,7 @@ func init() {
 		x.thresholdSweep(fns, streamValid, 80, 40)
 		x.orbitPairsSS(fns)
 		x.hashCollisions(fns)
+		x.nearMissBlocks(fns)
 		x.pairsFor(fns, valid, 120000*x.scale)
 		relC01(x, 20000*x.scale)
 	}
@@ -357,12 +358,15 @@ func init() {
 		x.thresholdSweep(fns, streamValid, 80, 40)
 		x.orbitPairsSS(fns)
 		x.hashCollisions(fns)
+		x.nearMissBlocks(fns)
 		x.pairsFor(fns, valid, 150000*x.scale)
 		relC08(x, 30000*x.scale)
 	}
 	props["C09"] = func(x *Ctx) {
 		fns := []string{"HasPrefix", "HasSuffix", "TrimPrefix", "TrimSuffix", "CutPrefix", "CutSuffix"}
 		x.ratioSweep(fns, false)
+		x.nearMissBlocks(fns)
+		x.bytePairBlocks(fns)
 		x.affixFor(fns, valid, 60000*x.scale)
 		x.pairsFor(fns, valid, 20000*x.scale)
 		x.thresholdSweep(fns, streamValid, 40, 40)
@@ -565,6 +569,46 @@ func (x *Ctx) bytePairBlocks(fns []string) {
 		}
 	}
 	x.note("byte-pair blocks: %d pairs of equal-length strings differing at one position", n)
+}
+
+// nearMissBlocks: the byte-pair blocks inside longer haystacks — a window that equals the needle except at
+// one position (one-bit differences, in particular the case bit on non-letters), alone, before and after a
+// real match, as a prefix and as a suffix: block-wise comparison code in the search and affix functions
+func (x *Ctx) nearMissBlocks(fns []string) {
+	base := []byte("config_2 Value-7 [xyz] {QRS} 9@`~end")
+	n := 0
+	for _, L := range []int{8, 9, 16, 17, 32, 33} {
+		for _, pos := range []int{0, 1, 7, 8, L - 2, L - 1} {
+			if pos < 0 || pos >= L {
+				continue
+			}
+			for _, bit := range []uint{0, 5, 6, 7} {
+				needle := append([]byte{}, base[:L]...)
+				miss := x.g.recase(needle, false, 0.5)
+				if len(miss) != L {
+					miss = append([]byte{}, needle...)
+				}
+				miss[pos] ^= 1 << bit
+				real := x.g.recase(needle, false, 0.5)
+				for _, pre := range []string{"", "x", "0123456789abcdef0123456789"} {
+					hay := [][]byte{
+						[]byte(pre + string(miss)),
+						[]byte(pre + string(miss) + "--"),
+						[]byte(pre + string(miss) + string(real)),
+						[]byte(pre + string(real) + string(miss)),
+						[]byte(string(miss) + pre),
+					}
+					for _, s := range hay {
+						for _, fn := range fns {
+							x.eval(&Case{Fn: fn, S: s, T: needle}, n%53 == 0)
+							n++
+						}
+					}
+				}
+			}
+		}
+	}
+	x.note("near-miss blocks: %d cases", n)
 }
 
 // orbitPairs: for every folding orbit with more than one member, every ordered pair (a, b) of its
